@@ -36,6 +36,8 @@ def cases(tier, seed):
     n = 20 if tier == "quick" else 200
     out = [{"sub": "classical", "i": i} for i in range(n)]
     out += [{"sub": "vqe", "i": i} for i in range(12 if tier == "quick" else 150)]
+    # directed: high-spin references under the symmetry-conserving encoding (its spin-parity argument matters only when spin//2 is odd)
+    out += [{"sub": "vqe", "i": 10000 + i, "force": "triplet_scbk"} for i in range(3 if tier == "quick" else 30)]
     out += [{"sub": "pad", "i": i} for i in range(10 if tier == "quick" else 100)]
     return out
 
@@ -153,6 +155,10 @@ def run_vqe(case, ctx):
     uhf = case["i"] % 4 == 3
     spec = chem.mol_spec(pr, rng, kinds=["H2", "H3+", "H4", "H2_321g", "H4ring"] if uhf else ["H2", "H3+", "H3", "H4", "H2_321g", "H4+"],
                          allow_uhf=False)
+    if case.get("force") == "triplet_scbk":
+        uhf = False
+        spec = chem.mol_spec(pr, rng, kinds=["H4", "H4_triplet_frozen"], allow_uhf=False)
+        spec["spin"] = 2
     spec["uhf"] = uhf
     if uhf and spec["frozen"] is not None:
         f = spec["frozen"]
@@ -165,6 +171,9 @@ def run_vqe(case, ctx):
     utd = pr.random() < 0.5
     if mol.uhf and mapping == "SCBK":
         mapping = "JW"
+    if case.get("force") == "triplet_scbk":
+        mapping = "SCBK"
+    ctx.tab("vqe_spin_x_mapping", f"spin={mol.spin}|{mapping}")
     wit = {"spec": spec, "mapping": mapping, "up_then_down": utd}
     with warnings.catch_warnings():
         warnings.simplefilter("ignore")
@@ -241,7 +250,17 @@ def run_pad(case, ctx):
     if uhf:
         f = spec["frozen"]
         fl = list(range(f)) if isinstance(f, int) else list(f)
-        spec["frozen"] = [fl, fl]
+        fb = list(fl)
+        nocc = {"H2O": 5, "H2_321g": 1}.get(spec["label"], 2)
+        if nocc >= 2 and pr.random() < 0.6:
+            # per-spin frozen lists holding a different number of occupied orbitals
+            occ_in = [x for x in fl if x < nocc]
+            if occ_in:
+                fb.remove(pr.choice(occ_in))
+            else:
+                fb = sorted(fb + [0])
+        spec["frozen"] = [fl, fb]
+        ctx.tab("uhf_padding_frozen_lists", "unequal_occupied" if fb != fl else "equal")
     mol = build(spec, ctx)
     if mol is None:
         return
